@@ -689,10 +689,14 @@ impl InflightBlocks {
             states.remove(&key);
         }
 
+        let mut dropped_hashes = Vec::new();
         download_schedulers.retain(|k, v| {
             // task number zero means this peer's response is very slow
             if v.task_count == 0 {
                 disconnect_list.insert(*k);
+                // the peer is dropped from the table: what it still has in flight is released
+                // below, nothing else will (remove_by_peer no longer finds the peer)
+                dropped_hashes.extend(v.hashes.iter().cloned());
                 false
             } else {
                 true
@@ -740,6 +744,10 @@ impl InflightBlocks {
             }
             true
         });
+        for key in dropped_hashes.iter() {
+            states.remove(key);
+            trace.remove(key);
+        }
         shrink_to_fit!(trace, SHRINK_THRESHOLD);
 
         disconnect_list
